@@ -115,7 +115,7 @@ fn miri_jobs(prop: &str, seed: u64, fam: &str, n: u64, ops: u64) -> Vec<Job> {
         .collect()
 }
 
-const SCHED_RULE: &str = "run r = generator(seed, r): configuration (freelist kind x layout x min segment size x capacity 256..1024 x retries x 2..4 threads x single-threaded prelude building a free list of 0..6 segments with 0..64 bytes of fresh space left) + one generated program per thread (alloc bytes/aligned/typed, borrowed and owned, fill, drop, detach, leak, clone/drop arena, discard_freelist, send/receive owned buffers) executed under the hook-serialised scheduler with a strategy in {random switching p=5/30/70%, PCT d=1..3, window sweep: park thread t at atomic event k of operation j until the others finish or spin}, optional spurious compare_exchange_weak failures; family A = byte allocations only, family B = typed and aligned allocations too; distinct_nontrivial = distinct hashes of the schedule (sequence of thread choices) of runs with at least one preemption";
+const SCHED_RULE: &str = "run r = generator(seed, r): configuration (freelist kind x layout x min segment size x capacity 256..1024 x retries x 2..4 threads x single-threaded prelude building a free list of 0..6 segments with 0..64 bytes of fresh space left) + one generated program per thread (alloc bytes/aligned/typed, borrowed and owned, fill, drop, detach, leak, clone/drop arena, discard_freelist, send/receive owned buffers) executed under the hook-serialised scheduler with a strategy in {random switching p=5/30/70%, PCT d=1..3, window sweep: park thread t at atomic event k of operation j until the others finish or spin}, optional spurious compare_exchange_weak failures; family A = byte allocations only, family B = typed and aligned allocations too, family T = 3..4 threads fighting for the last 16..48 bytes of fresh space (release-on-top keeps giving them back); distinct_nontrivial = distinct hashes of the schedule (sequence of thread choices) of runs with at least one preemption";
 
 fn seq_rule(prop: &str) -> String {
     let nt = match prop {
@@ -383,6 +383,7 @@ pub fn plan(prop: &str, tier: &str, seed: u64) -> Option<Plan> {
             let (count, secs) = if quick { (6000, 30) } else { (400000, 900) };
             p.jobs.extend(sched_jobs(prop, seed, "A", 6, count, secs, false));
             p.jobs.extend(sched_jobs(prop, seed, "B", 6, count, secs, false));
+            p.jobs.extend(sched_jobs(prop, seed, "T", 6, if quick { 9000 } else { 400000 }, secs, false));
             p.jobs.extend(sched_jobs(prop, seed + 7, "A", 2, count / 8, secs, true));
             p.jobs.extend(sched_jobs(prop, seed + 7, "B", 2, count / 8, secs, true));
             match prop {
